@@ -513,6 +513,41 @@ func rulesC05(c *Ctx) {
 		hg := h.Graph()
 		hr := c.FnObj(pM, "", "handleReceive")
 		listen := c.Field(pM, "ServerSession", "listenIDs")
+		// ... and a finished listen is taken out of the record without losing another one: where some function cuts
+		// the record short (listenIDs = listenIDs[:n]) nothing may have been stored into slot n just before — a value put
+		// into the slot that is cut off is gone, and the element that was there (the id of a listen that is still
+		// parked, in a swap-with-last removal) is lost with it, so Close never cancels it
+		for _, f := range c.P.FuncsIn(pM) {
+			if f.Body == nil {
+				continue
+			}
+			ast.Inspect(f.Body, func(x ast.Node) bool {
+				as, ok := x.(*ast.AssignStmt)
+				if !ok || len(as.Lhs) != 1 || len(as.Rhs) != 1 || !f.IsField(as.Lhs[0], listen) {
+					return true
+				}
+				sl, ok := ast.Unparen(as.Rhs[0]).(*ast.SliceExpr)
+				if !ok || sl.Low != nil || sl.High == nil || !f.IsField(sl.X, listen) {
+					return true
+				}
+				cut := types.ExprString(sl.High)
+				var dead ast.Node
+				ast.Inspect(f.Body, func(y ast.Node) bool {
+					st, ok := y.(*ast.AssignStmt)
+					if !ok || st.Pos() >= as.Pos() {
+						return true
+					}
+					for _, l := range st.Lhs {
+						if ix, ok := ast.Unparen(l).(*ast.IndexExpr); ok && f.IsField(ix.X, listen) && types.ExprString(ix.Index) == cut {
+							dead = st
+						}
+					}
+					return true
+				})
+				c.Check(dead == nil, "listen-ids:removal-keeps-the-others:"+f.Name(), f, as, "listenIDs is cut to [:%s] and nothing was stored into slot %s before (a store there is cut off at once; the id that was in that slot — a listen still parked — would be lost and never cancelled by Close)", cut, cut)
+				return true
+			})
+		}
 		ws := h.FieldWrites(h.Body, listen, false)
 		c.Need(len(ws) == 1, "handle: append to listenIDs")
 		wv := hg.VertexOf(ws[0])
